@@ -422,8 +422,13 @@ def execute(drv, setup, program, label=""):
             other = BMPController("another-bmp", initial_context={})
         del net.log[:]
 
+        observe = setup.get("observe", True)
+        kept = {}                  # context objects made once and entered several times
+
         def ctx_now():
-            return pairs(ctrl.get_context_arguments())
+            # (asking the controller what is in force is itself a call into the mechanism; sessions with
+            # observe=False never ask, and are judged on the datagrams alone)
+            return pairs(ctrl.get_context_arguments()) if observe else []
 
         emark = [0]
 
@@ -467,6 +472,10 @@ def execute(drv, setup, program, label=""):
                     evs.append(["app", call["pos_enc"], call["kw_enc"], ["raise", type(ex).__name__],
                                 flush(), ctx_now()])
                     return
+            elif node.get("keep") is not None:
+                if node["keep"] not in kept:
+                    kept[node["keep"]] = ctrl(**node["map"])
+                cm = kept[node["keep"]]
             else:
                 cm = made if made is not None else ctrl(**node["map"])
             try:
@@ -504,7 +513,7 @@ def execute(drv, setup, program, label=""):
     tr = dict(kind=kind, init=pairs(init if init is not None else
                                     (DEFAULT_MC_INIT if kind == "mc" else DEFAULT_BMP_INIT)),
               meths=[drv.methods[m].encode() for m in sorted(used)], ev=evs, label=label,
-              opened=net.opened,
+              opened=net.opened, blind=0 if observe else 1,
               # what is needed to run the same program again (./check C18 --replay); strings, so that TLC skips them
               setup=json.dumps(setup), prog=json.dumps(program))
     if kind == "mc":
@@ -519,9 +528,9 @@ def execute(drv, setup, program, label=""):
 HEAVY = ("get_system_info", "get_routing_table_entries", "discover_connections", "get_p2p_routing_table")
 
 
-def block(kind, children, raises=False, catches=True, map=None, call=None, early=False, stop_fails=False):
+def block(kind, children, raises=False, catches=True, map=None, call=None, early=False, stop_fails=False, keep=None):
     return dict(t="block", kind=kind, map=map or {}, call=call, children=children, raises=raises, catches=catches,
-                early=early, stop_fails=stop_fails)
+                early=early, stop_fails=stop_fails, keep=keep)
 
 
 def exit_patterns(depth):
@@ -622,12 +631,15 @@ def small_scope_bmp(chk, drv, rng):
                "default initial context (0, 0, 0); connections for every (cabinet, frame) and four boards")
 
 
+# (the root chip - the one the host is wired to - need not be at a board's origin as seen from (0, 0))
 MACHINES = [(2, 2, (0, 0)), (8, 8, (0, 0)), (12, 12, (0, 0)), (12, 12, (4, 8)), (24, 12, (0, 0)), (16, 16, (0, 0)),
-            (12, 24, (8, 4)), (12, 12, (0, 0))]
+            (12, 24, (8, 4)), (12, 12, (0, 0)), (12, 12, (4, 0)), (24, 12, (7, 3)), (12, 12, (1, 1)), (24, 24, (20, 4))]
 
 
 def random_program(drv, rng, draw_values, names, light_only):
     pool = [m for m in drv.drivable if not (light_only and m in ("get_system_info", "get_routing_table_entries"))]
+
+    keepers = []               # (key, map) of context objects that the program keeps and enters again
 
     def gen(depth):
         nodes = []
@@ -645,6 +657,17 @@ def random_program(drv, rng, draw_values, names, light_only):
                     m["nonesuch"] = 7          # a name no method declares
                 if rng.random() < 0.08:
                     nodes.append(block("foreign", gen(depth + 1), map={n: v[n] for n in names}))
+                elif rng.random() < 0.35:
+                    # a context object kept by the program: made at its first entry, entered again later,
+                    # under whatever blocks are open then
+                    if keepers and rng.random() < 0.6:
+                        key, m = rng.choice(keepers)
+                    else:
+                        key = len(keepers)
+                        keepers.append((key, m))
+                    kids = [drv.make_call(rng.choice(pool), rng, draw_values(), "omit")] + \
+                        (gen(depth + 1) if rng.random() < 0.3 else [])
+                    nodes.append(block("plain", kids, rng.random() < 0.25, rng.random() < 0.5, map=m, keep=key))
                 else:
                     nodes.append(block("plain", gen(depth + 1), rng.random() < 0.25, rng.random() < 0.5, map=m,
                                        early=rng.random() < 0.3))
@@ -659,7 +682,11 @@ def random_program(drv, rng, draw_values, names, light_only):
 def random_mc(chk, drv, rng, n):
     for i in range(n):
         w, h, root = rng.choice(MACHINES)
-        cands = [(x, y) for x in range(0, w, 4) for y in range(0, h, 4)]
+        # candidates for a live Ethernet link: the chips at their board's origin as seen from the root, and a few others
+        cands = [(x, y) for x in range(w) for y in range(h)
+                 if ((x - root[0]) % 12, (y - root[1]) % 12) in ((0, 0), (4, 8), (8, 4))]
+        cands += [(rng.randrange(w), rng.randrange(h)) for _ in range(2)]
+        cands = sorted(set(cands))
         up = [c for c in cands if rng.random() < 0.6]
 
         def draw():
@@ -680,7 +707,7 @@ def random_mc(chk, drv, rng, n):
         prog = random_program(drv, rng, draw, MC_NAMES, light_only=(w * h > 150))
         if rng.random() < 0.7:
             prog.insert(0, drv.make_call("discover_connections", rng, draw(), rng.choice(("omit", "omit", "kw", "pos"))))
-        yield execute(drv, dict(init=init, w=w, h=h, root=root, up=up), prog, "random-mc")
+        yield execute(drv, dict(init=init, w=w, h=h, root=root, up=up, observe=rng.random() < 0.6), prog, "random-mc")
 
 
 def random_bmp(chk, drv, rng, n):
@@ -701,7 +728,7 @@ def random_bmp(chk, drv, rng, n):
         else:
             v = draw()
             init = {k: v[k] for k in BMP_NAMES if rng.random() < 0.5}
-        yield execute(drv, dict(init=init, hosts=hosts), random_program(drv, rng, draw, BMP_NAMES, False), "random-bmp")
+        yield execute(drv, dict(init=init, hosts=hosts, observe=rng.random() < 0.6), random_program(drv, rng, draw, BMP_NAMES, False), "random-bmp")
 
 
 # ------------------------------------------------------------------------------------------ the check
